@@ -10,7 +10,7 @@ def Progress (s : St) : Prop := ∃ t a, s.frame t ≠ .idle ∧ (step false s t
 theorem progress_regLocked {s : St} {t m r : Nat} (hf : s.frame t = .iRegLocked m r) : Progress s := by
   by_cases hu : s.rUnreg r = .none
   · exact ⟨t, .instRegBody, by simp [hf], by simp [step, hf, hu]⟩
-  · exact ⟨t, .instRegBody, by simp [hf], by simp only [step, hf, hu, if_false]; split <;> simp⟩
+  · exact ⟨t, .instRegBody, by simp [hf], by simp only [step, hf, hu, if_false]; (repeat' split) <;> simp⟩
 
 theorem progress_insts {s : St} (L : LockInv s) (O : NoOld s) {t m : Nat} (hf : s.frame t = .iInsts m) :
     Progress s := by
